@@ -492,6 +492,18 @@ var orderTemplates = []struct {
 	{"a = [[1], [5]]\nn = 0\nfunc k() {\nn++\nreturn n - 1\n}\na[k()][1] = 2\nprobe([a, n])", []string{"(l (l (l (i 1) (i 2)) (l (i 5))) (i 1))"}},
 	{"ms = make([]map[string]int64, 2)\nn = 0\nfunc k() {\nn++\nreturn n - 1\n}\nms[k()][\"x\"] = 1\nprobe([len(ms[0]), len(ms[1]), n])", []string{"(l (i 1) (i 0) (i 1))"}},
 	{"ss = [\"ab\", \"cd\"]\nn = 0\nfunc k() {\nn++\nreturn n - 1\n}\nss[k()][2] = \"!\"\nprobe([ss, n])", []string{"(l (l (s 616221) (s 6364)) (i 1))"}},
+	// an argument a Go function's parameter does not accept is evaluated once, the call fails, nothing is evaluated again
+	{"try {\nwantsptr(probe(1))\n} catch e {\nprobe(-1)\n}", []string{"(i 1)", "(i -1)"}},
+	{"n = 0\nfunc k() {\nn++\nreturn n\n}\ntry {\nwantsptr(k())\n} catch e {\nprobe(-1)\n}\nprobe(n)", []string{"(i -1)", "(i 1)"}},
+	{"a = [1, 2]\ntry {\nwantsptr(a[probe(0)])\n} catch e {\nprobe(-1)\n}", []string{"(i 0)", "(i -1)"}},
+	{"try {\nwantsptr2(probe(1), probe(2))\n} catch e {\nprobe(-1)\n}", []string{"(i 1)", "(i 2)", "(i -1)"}},
+	{"c = make(chan int64, 2)\nc <- 1\nc <- 2\ntry {\nwantsptr(<-c)\n} catch e {\nprobe(-1)\n}\nprobe(len(c))", []string{"(i -1)", "(i 1)"}},
+	{"x = 5\ntry {\nwantsptr(x++)\n} catch e {\nprobe(-1)\n}\nprobe(x)", []string{"(i -1)", "(i 6)"}},
+	{"try {\nwantsstr(probe(1))\n} catch e {\nprobe(-1)\n}", []string{"(i 1)", "(i -1)"}},
+	{"try {\nwantsints(probe(1), probe(2))\n} catch e {\nprobe(-1)\n}", []string{"(i 1)", "(i -1)"}},
+	{"try {\nwantsints([probe(1), probe(\"x\")], probe(2))\n} catch e {\nprobe(-1)\n}", []string{"(i 1)", "(s 78)", "(i -1)"}},
+	{"func f() {\ngo wantsptr(probe(1))\n}\ntry {\nf()\n} catch e {\nprobe(-1)\n}", []string{"(i 1)", "(i -1)"}},
+	{"func f() {\ndefer wantsptr(probe(1))\nprobe(2)\n}\ntry {\nf()\n} catch e {\nprobe(-1)\n}", []string{"(i 1)", "(i -1)"}},
 	{"st = [{\"l\": [1]}]\nn = 0\nfunc k() {\nn++\nreturn 0\n}\nst[k()].l[1] = 2\nprobe([st[0].l, n])", []string{"(l (l (i 1) (i 2)) (i 1))"}},
 }
 
@@ -508,7 +520,11 @@ func streamOrder(o *Out, r *rand.Rand, n int, thorough bool) {
 			continue
 		}
 		res := runVM(st, -1, 3*time.Second)
-		o.Case(fmt.Sprintf("(run %d _ %s)", modelFuel, astser.Prog(st)), res.line, c.src, true)
+		if strings.Contains(c.src, "wants") {
+			o.Sum.Evaluations++ // these host functions are not part of the model: reference trace only
+		} else {
+			o.Case(fmt.Sprintf("(run %d _ %s)", modelFuel, astser.Prog(st)), res.line, c.src, true)
+		}
 		o.Sum.Hist["order-template"]++
 		if res.hung || res.panicked || res.err != nil || strings.Join(c.want, " ") != strings.Join(res.trace, " ") {
 			o.Fail(Failure{Oracle: "order-reference-trace", Key: "order-template:" + firstLine(c.src), Input: c.src,
